@@ -3,11 +3,11 @@ import json, re
 from .. import core
 from . import stackcommon as sc
 
-EMITS = set("S V Q G A P PM R X E B ST CB TXT RACE VR NS STORM STORMA STALL PSPLIT SRPMANY".split())
+EMITS = set("S V Q G A P PM R X E B ST CB TXT RACE VR NS STORM STORMA STALL PSPLIT LSPLIT SRPMANY".split())
 
 ADV_SETUP = ["wrongcode", "wrongproof", "noproof", "a0", "aN", "a2N", "aempty", "m5first", "start", "m3wrong", "m5zerokey",
              "m5randkey", "badstep", "badmethod", "garbage", "aNforged", "a0forged", "aemptyforged", "wrongcodezero", "m5zeroempty", "m5emptyhkdf"]
-ADV_VERIFY = ["badsig", "unknown", "unknowntail", "reordered", "stale", "zerokey", "randkey", "flip", "inner-garbage", "short0", "short7",
+ADV_VERIFY = ["badsig", "unknown", "unknowntail", "reordered", "stale", "zerokey", "randkey", "flip", "inner-garbage", "inner-trailing", "short0", "short7",
               "short15", "short16", "reflect", "keylen31", "keylen33", "keylen0", "finishfirst", "startonly", "garbage"]
 XEPS = [("accessories", "GET"), ("characteristics", "GET"), ("characteristics-put", "PUT"), ("pairings", "POST"),
         ("pairings-remove", "POST"), ("resource", "POST"), ("identify", "POST"),
@@ -158,7 +158,8 @@ def gen_c02(rng, tier):
             else:
                 ops.append("S:%s:k%d%s:%s" % (c, j, c, rng.choice(msgs)))
             ops.append("ST")
-        mk(cases, "setup", ops)
+        # the accessories of one process (one shard of cases) have the same name and different setup codes
+        mk(cases, "setup", ops, opts="pin=%s nacc=0" % valid_pin(rng))
     # after a RIGHT proof on this connection: every defective key exchange must store nothing (and ends the exchange)
     for v in ["m5flip", "m5short", "m5empty", "m5zerokey", "m5randkey", "m5wrongsigner", "m5inner", "m5zerosig", "m5nosig", "m5othersig"]:
         for follow in (["S:a:k:m5"], ["S:a:k:%s" % v], []):
@@ -330,6 +331,9 @@ def gen_c03(rng, tier):
         for k in range(rng.randrange(1, 4)):
             ops += ["N:x%d" % k, "V:x%d:c0:%s" % (k, rng.choice(["samekey-badsig", "samekey-reordered"])), rng.choice(["Q:x%d" % k, "G:x%d:2.9" % k])]
         mk(cases, "samekey", ops)
+    # a finish that is malformed although name and signature inside it are genuine (one more byte behind the items; ...)
+    for v in ("inner-trailing", "inner-garbage", "short16"):
+        mk(cases, "malformed-finish", ["N:h", "S:h:c0:ok", "N:x", "V:x:c0:%s" % v, "G:x:2.9", "Q:x", "N:y", "V:y:c0:%s" % v, "V:y:c0:ok", "G:y:2.9"])
     # a recorded genuine exchange replayed on hundreds of new connections: the accessory's exchange key never repeats
     for i in range(1 if tier == "quick" else 4):
         mk(cases, "replay-later", ["N:h", "S:h:c0:ok", "VR:c0:%d" % (300 if tier == "quick" else 700), "N:v", "V:v:c0:ok", "G:v:2.9"])
@@ -688,6 +692,14 @@ def gen_c11(rng, tier):
                         "P:a:4.12:%s:-" % sc.num(9), "G:a:4.12", "P:b:4.12:-:1", "CB"])
     mk(cases, "perms", ["N:a", "S:a:c0:ok", "V:a:c0:ok", "N:b", "V:b:c0:ok", "PM:b:4.13~-~1+2.9~-~1", "PM:b:1.5~-~1+4.14~-~1+2.9~true~-", "L:2.9:false", "W", "E:b"])
     mk(cases, "perms", ["N:a", "S:a:c0:ok", "V:a:c0:ok", "N:b", "V:b:c0:ok", "P:b:4.15:-:1", "P:a:4.15:%s:-" % jstr("secret"), "W", "E:b", "L:4.15:%s" % jstr("local"), "W", "E:b", "G:b:4.15", "A:b"])
+    # a characteristic from a library constructor that the application restricted to read + events (+ hidden): a set of the same size
+    mk(cases, "perms", ["N:a", "S:a:c0:ok", "V:a:c0:ok", "N:b", "V:b:c0:ok", "P:a:4.19:%s:-" % sc.num(50), "G:a:4.19", "CB", "P:b:4.19:-:1", "L:4.19:%s" % sc.num(7), "W", "E:b",
+                        "P:a:4.19:%s:-" % sc.num(60), "G:b:4.19", "CB", "A:b"])
+    # a write of several entries that starts with an entry for an id that does not exist (a controller with a stale database):
+    # the entries behind it keep their own permissions
+    for first in ("9.99~-~1", "4.99~-~1", "9.99~true~1"):
+        mk(cases, "perms", ["N:a", "S:a:c0:ok", "V:a:c0:ok", "N:b", "V:b:c0:ok", "PM:b:%s+4.12~%s~-" % (first, sc.num(5)), "G:b:4.12", "L:4.12:%s" % sc.num(9), "W", "E:b", "CB",
+                            "PM:b:%s+4.17~%s~-+2.9~-~1" % (first, sc.num(7)), "L:4.17:%s" % sc.num(4), "L:2.9:true", "W", "E:b", "CB", "G:b:4.17"])
     return cases
 
 
@@ -729,6 +741,8 @@ def oracle_c11(c, obs):
         if p[0] == "PM":
             for ent in p[2].split("+"):
                 cid, val, ev = ent.split("~")
+                if cid not in rows:
+                    continue
                 if val != "-" and "w" not in rows[cid]["perms"]:
                     nowrite.add(cid)
                 if ev != "-" and "e" not in rows[cid]["perms"] and (cid + "!-70406") not in tok:
@@ -834,6 +848,10 @@ def gen_c10(rng, tier):
             ops = ["N:p", "S:p:c0:ok", "N:c0", "V:c0:c0:ok", "N:c1", "V:c1:c0:ok", "N:c2", "V:c2:c0:ok", "P:c0:2.9:-:1"] + pre + ["P:c1:2.9:-:0",
                    ("P:c2:2.9:true:-" if third else "L:2.9:true"), "W", "E:c0", "E:c1", "E:c2", "P:c1:3.12:-:0", "L:3.12:%s" % sc.num(25), "W", "E:c0", "E:c1"]
             mk(cases, "unsub-by-other", ops)
+    # "ev": false as the first thing a connection says about events; later it subscribes
+    ops = ["N:p", "S:p:c0:ok", "N:c0", "V:c0:c0:ok", "N:c1", "V:c1:c0:ok", "P:c0:2.9:-:0", "P:c1:2.9:-:1", "L:2.9:true", "W", "E:c0", "E:c1",
+           "P:c0:2.9:-:1", "L:2.9:false", "W", "E:c0", "E:c1"]
+    mk(cases, "unsub-first", ops)
     # the application takes a written value back from inside its remote-update callback (two changes: both are notified)
     for i in range(2 if tier == "quick" else 10):
         ops = ["N:p", "S:p:c0:ok", "N:c0", "V:c0:c0:ok", "N:c1", "V:c1:c0:ok", "P:c0:2.9:-:1", "P:c1:2.9:-:1", "TB:2.9",
@@ -844,6 +862,13 @@ def gen_c10(rng, tier):
     for i in range(2 if tier == "quick" else 10):
         mk(cases, "storm", ["N:p", "S:p:c0:ok", "N:c0", "V:c0:c0:ok", "P:c0:4.14:-:1", "STORM:c0:%d" % (2500 if tier == "quick" else 8000)])
         cases[-1]["noretry"] = True
+    # the application changes a value several times, coming back to a value it had before, while a subscriber's request is being
+    # handled (its notifications wait for the response): every change is notified, equal ones too
+    for ch, vals in (("2.9", ["true", "false", "true"]), ("2.9", ["true", "false", "true", "false"]), ("3.12", [sc.num(30), sc.num(21.5), sc.num(30)]),
+                     ("4.14", [sc.num(5), sc.num(6), sc.num(5), sc.num(6), sc.num(5)])):
+        ops = ["N:p", "S:p:c0:ok", "N:c0", "V:c0:c0:ok", "N:c1", "V:c1:c0:ok", "P:c0:%s:-:1" % ch, "P:c1:%s:-:1" % ch,
+               "LSPLIT:c0:%s:%s" % (ch, "/".join(vals)), "W", "E:c0", "E:c1", "L:%s:%s" % (ch, vals[1]), "W", "E:c0", "E:c1"]
+        mk(cases, "changes-during-request", ops)
     # directed: texts that look like parts of the HTTP / EVENT framing, as values of an observable string
     for t in texts[1:6]:
         ops = ["N:p", "S:p:c0:ok", "N:c0", "V:c0:c0:ok", "N:c1", "V:c1:c0:ok", "P:c0:4.16:-:1", "P:c1:4.16:-:1",
@@ -910,6 +935,13 @@ def oracle_c10(c, obs):
             pending.pop(p[1], None)
         elif p[0] == "L":
             change(p[1], ":".join(p[2:]), None)
+        elif p[0] == "LSPLIT":
+            if tok != "LSPLIT=204":
+                return "a subscription request whose body arrived after the application changed the value was answered " + tok
+            for vt in ":".join(p[3:]).split("/"):
+                change(p[2], vt, None)
+            if "e" in rows[p[2]]["perms"]:
+                subs.setdefault(p[1], set()).add(p[2])
         elif p[0] == "TB":
             takeback.add(p[1])
         elif p[0] == "P":
@@ -964,7 +996,7 @@ def gen_c13(rng, tier):
             elif r < 0.65:
                 ops.append("S:x:e1:%s" % rng.choice(["m5short", "m5empty", "m5flip", "m5inner", "m5zerokey", "badstep", "badmethod", "garbage", "m5first", "a0", "aempty"]))
             elif r < 0.8:
-                ops.append("V:x:c0:%s" % rng.choice(["short0", "short7", "short15", "short16", "flip", "zerokey", "inner-garbage", "keylen0", "keylen33", "finishfirst", "garbage", "unknown",
+                ops.append("V:x:c0:%s" % rng.choice(["short0", "short7", "short15", "short16", "flip", "zerokey", "inner-garbage", "inner-trailing", "keylen0", "keylen33", "finishfirst", "garbage", "unknown",
                                                       "startzerokeep", "startlow1", "startlow2", "startlow3", "startlow4", "startlow5", "startlow6"]))
             elif r < 0.82 and state == "verified":
                 # an "ev" member that is not a boolean, on observable and non-observable characteristics
@@ -1011,6 +1043,11 @@ def gen_c13(rng, tier):
             ops = ["N:h", "S:h:c0:ok", "N:x", "V:x:c0:ok", "R:x:odd:%s" % k, "N:q", "V:q:odd:%s" % vv, "K:q",
                    "N:y", "S:y:n2:ok", "N:z", "V:z:n2:ok", "G:z:2.9", "A:z", "P:z:2.9:true:-", "ST", "A:x", "P:x:2.9:false:-"]
             mk(cases, "robust", ops, {"state": "verified"})
+    # directed: the first request of a verified connection that mentions events ends a subscription it never made
+    for cid in ["2.9", "3.12", "4.13"]:
+        ops = ["N:h", "S:h:c0:ok", "N:x", "V:x:c0:ok", "P:x:%s:-:0" % cid, "G:x:2.9", "PM:x:%s~-~0+2.9~-~0" % cid, "P:x:2.9:-:1", "P:x:2.9:-:0",
+               "N:y", "S:y:n2:ok", "N:z", "V:z:n2:ok", "G:z:2.9", "A:z", "P:z:2.9:true:-", "ST", "A:x", "P:x:2.9:false:-"]
+        mk(cases, "robust", ops, {"state": "verified"})
     # directed: type errors inside an otherwise well-formed write of a verified controller must not wedge anything
     for cid in ["2.9", "3.12", "4.14", "4.13"]:
         for ev in ["st", "s1", "n1", "n0"]:
